@@ -13,7 +13,14 @@ Violation keys (matched by known_findings.jsonl):
   behaviour:<backend>:<design>:<what>              outputs differ from the PyMTL simulation
 <design> is the repo case / stdlib component name, or for generated designs `gen:<family>:<shape>` where the
 shape is the operator / operand-shape tree of the expression driving the failing output (expression
-families) or the name of the fixed structure with its parameters (structural families).
+families) or the name of the fixed structure with its parameters (structural families).  For the grid
+families the shape is the shape class of the failing output, never a random size or index:
+  nd   <construct>.d<dimensions>.<rd|wr>.<ub-const|ub-loop|ub-var|connect>  (internal constructs: wr.<m>+rd.<m>;
+       whole-struct traffic: <construct>.d<n>.whole.<bits|upblk|connect>), e.g. behaviour:sv:gen:nd:ifc.d2.rd.ub-var
+  lv   lv.<use>.<range form>, e.g. behaviour:sv:gen:lv:lv.castk.desc
+An output mismatch does not end the validation of a run: every port that differs in any cycle gets its key
+(a known finding on one port / in an early cycle cannot hide another port); a write through an out-of-range
+index names the variable written (clause comb:out-of-range-write).
 """
 import concurrent.futures as cf
 import copy
